@@ -10,7 +10,7 @@ from ..driver import load_known
 PROPERTY = 'C13'
 TEMPLATE = os.path.join(os.path.dirname(os.path.dirname(os.path.abspath(__file__))), 'xh', 'c13_conditions.py')
 PLATE_DESCR = ['1x1', '1x4', '3x1', '3x4', '28x1 (rows A..Z, AA, AB)', "custom rows i,ii,iii x cols a,b",
-               "numeric-looking custom rows '3','1','2' x 3"]
+               "numeric-looking custom rows '3','1','2' x 3", "custom labels differing only in surrounding whitespace (' a','b ','a' x ' 1','1 ','1')"]
 META = {
     'generator': 'vf/xh/c13_conditions.py',
     'explanation': ("Each condition is a function over symbolic integers / strings that applies the real Plate.__getitem__ "
@@ -27,7 +27,9 @@ META = {
                "column); list of two (r,c) tuples; label / 'r:c' string; (label,label); (label,int) and its integer twin; "
                "label slice with step; list of two 'r:c' strings; a slice of a slice with non-negative relative bounds on 4 parent selections; 9 malformed shapes) x plates " + ', '.join(PLATE_DESCR) +
                "; integers unbounded (steps: symbolic up to 8, plus the concrete steps 9, 29, 1e6, 2^70), strings of length <= 3-4 over all of unicode."),
-    'outside': "negative relative indices and steps in slices of slices; labels containing ':'; plates other than the 7 listed.",
+    'history': ("for the three custom-labelled plates every selector is first resolved on a twin plate of the same shape whose "
+                "labels are the same strings in another order (result ignored)"),
+    'outside': "negative relative indices and steps in slices of slices; labels containing ':'; plates other than the 8 listed.",
     'assumptions': ["numpy basic slicing with the resolved slice objects behaves like Python slicing (Slicer.get is executed, "
                     "CrossHair realises the slice bounds at the numpy boundary per path)"],
 }
@@ -47,7 +49,7 @@ def main(args, seed):
             print(f"VIOLATION property={PROPERTY} replay={args.replay}")
             return 1
         return 0
-    plates = [3, 4, 5, 6] if args.tier == 'quick' else list(range(7))
+    plates = [3, 4, 5, 6, 7] if args.tier == 'quick' else list(range(8))
     timeout = 40 if args.tier == 'quick' else 300
     jobs = []
     for k in plates:
